@@ -87,6 +87,7 @@ def simOp (net : Net) (toks : List String) : Option (Net × String) :=
     (net.upd n (fun nd => { nd with succs := if l == "-" then [] else (l.splitOn ",").filterMap (·.toNat?) }), "ok")
   | ["leave", l] => (nat l).map fun l => let (net', e) := leave net l; (net', errStr e)
   | ["stabilize", n] => (nat n).map fun n => (stabilize net n, "ok")
+  | ["stabilizex", n] => (nat n).map fun n => (stabilizeNoNotify net n, "ok")
   | ["fixfinger", n] => (nat n).map fun n => (fixFinger net n, "ok")
   | ["checkpred", n] => (nat n).map fun n => (checkPredecessor net n, "ok")
   | ["crash", n] => (nat n).map fun n => (net.upd n (fun nd => { nd with crashed := true }), "ok")
